@@ -52,6 +52,12 @@ def unwindOne : List (Val N) → List (Val N)
 
 def upperStr (s : String) : String := String.ofList (s.toList.map Char.toUpper)
 
+/-- the strings whose Go `strings.ToLower/ToUpper` the model predicts: ASCII letters are mapped, other
+    ASCII and CJK ideographs (no case) are kept.  Any other character (`ö`, `ß`, `İ`, …) goes through
+    Go's Unicode case tables, which are not modelled: out of model, counted by the correspondence. -/
+def caseModelled (s : String) : Bool :=
+  s.toList.all fun c => c.toNat < 128 || (0x4E00 ≤ c.toNat && c.toNat ≤ 0x9FFF)
+
 /-- CONCAT as the property states it (non-NULL arguments only); the Go code prints `<nil>` for a
     NULL argument — known finding KF-concat-null, switch `concatNilText`. -/
 def concatVals (nilText : Bool) : List (Val N) → R String
@@ -142,11 +148,11 @@ def callBody (concatNilText : Bool) (name : String) (star : Option (List (Val N)
   | "array", xs => .ok (.v (.arr xs))
   | "to_lower", [a] =>
     match a with
-    | .str s => .ok (.v (.str (lowerStr s)))
+    | .str s => if caseModelled s then .ok (.v (.str (lowerStr s))) else .error .oom
     | _ => .error .error
   | "to_upper", [a] =>
     match a with
-    | .str s => .ok (.v (.str (upperStr s)))
+    | .str s => if caseModelled s then .ok (.v (.str (upperStr s))) else .error .oom
     | _ => .error .error
   | "daterange", [f, t] => do
     let fs ← (match f with | .null => pure "" | x => fmtR x)
